@@ -15,6 +15,7 @@ import (
 	_ "verifsim/worlds/stateworld"
 	_ "verifsim/worlds/votedbworld"
 	_ "verifsim/worlds/networld"
+	_ "verifsim/worlds/poolworld"
 	_ "verifsim/worlds/evmworld"
 	_ "verifsim/worlds/c05world"
 	_ "verifsim/worlds/trieworld"
